@@ -11,6 +11,10 @@ Binding C: TLC behaviours (every history of length 3 over a reduced alphabet + r
        ArraySpectrum with a fitting parameter; the projected state is compared after every call.
        "Preset" histories: every subset of the parameters made the fitted set (only the observation's
        parameter, none, all ...) x one optional setter / set_prior x compile x update / write-back / compile.
+Rejected calls: update_model with a vector shorter / longer than the fitted set and set_mode with a string that is
+       neither mode are calls of the specification (UpdateWrong, BadMode: an error, nothing changes, the history goes
+       on); the mode argument is a pair (mode, letters written in upper case).  TLC must refute ErrorsChangeNothing
+       for UpdateGuard = "while_writing" and HistoryIndependent for ModeStore = "raw".
 Binding B: seeded random call sequences (wider argument domains) recorded from the real object and
        validated call by call by Trace_Optimizer.tla; canary.
 """
@@ -25,26 +29,51 @@ CLAUSES = ('unknown_is_error', 'known_is_accepted', 'views_readable', 'fit_names
            'fit_boundaries', 'fit_priors', 'derived_names', 'values', 'other_parameters_untouched')
 FULL = ('compile_params', 'update_model', 'write_back')     # calls after which the whole set-up is compared
 OBS_PARAMS = ('offset',)     # the observation's fitting parameters (MC_Optimizer.tla: MCObsParams)
-NEED = ('SetPrior', 'EnableDerived', 'DisableDerived', 'Compile', 'WriteBack', 'Unknown', 'UpdateCall')
+NEED = ('SetPrior', 'EnableDerived', 'DisableDerived', 'Compile', 'WriteBack', 'Unknown', 'UpdateCall',
+        'UpdateWrongCall', 'BadMode')
+MODES = ('linear', 'log')
 
 
 def history_class(hist, k):
     """Input class of step k of a history: the call, and what preceded it since the last compile."""
-    op = hist[k]['op']
+    op = call_kind(hist[k])
     compiled_before = any(h['op'] == 'compile_params' for h in hist[:k])
-    since = []
+    since, since_kinds = [], []
     for h in reversed(hist[:k]):
         if h['op'] == 'compile_params':
             break
         since.append(h['op'])
+        since_kinds.append(call_kind(h))
     tags = sorted(set(since) & {'set_boundary', 'set_factor_boundary', 'set_mode', 'set_prior'}) \
-        if op in ('compile_params', 'write_back', 'update_model') and compiled_before else []
+        if hist[k]['op'] in ('compile_params', 'write_back', 'update_model') and compiled_before else []
+    if hist[k]['op'] in FULL and 'set_mode[mixed-case]' in since_kinds:
+        tags = [t for t in tags if t != 'set_mode'] + ['set_mode[mixed-case]']     # a mode spelled with upper-case letters
+    if k and call_kind(hist[k - 1]) in ('update_model<shorter', 'update_model>longer', 'set_mode[no-mode]'):
+        tags.append('after-refused-call')          # the call before this one was refused
     cls = '%s:%s:%s' % (op, 'recompile' if compiled_before else 'first', '+'.join(tags) or '-')
     pre = [h for h in hist[:k + 1] if h['op'] == 'preset']
     if pre:
         cls += ':fitted=%s:%s' % (fitted_kind(pre[-1]['on']),
                                   'user-prior' if any(h['op'] == 'set_prior' for h in hist[:k + 1]) else 'no-user-prior')
     return cls
+
+
+def call_kind(ev):
+    """The call of an event, with the class of its argument where the specification distinguishes one: a vector
+    shorter / longer than the fitted set, a mode written with upper-case letters, a string that is no mode."""
+    op = ev['op']
+    if op == 'update_model':
+        # the fitted set of the last compile (update_model does not change it): the specification's in binding C,
+        # the number of compiled parameters read before the call in binding B
+        nfit = ev['nfit'] if 'nfit' in ev else len(ev['post']['fit'])
+        n = len(ev['x'])
+        return op if n == nfit else op + ('<shorter' if n < nfit else '>longer')
+    if op == 'set_mode' and ev.get('p') in fx.PARAMS:
+        if ev.get('m') not in MODES:
+            return 'set_mode[no-mode]'
+        if fx.spell(ev['m'], ev.get('cs')) != ev['m']:
+            return 'set_mode[mixed-case]'
+    return op
 
 
 def fitted_kind(on):
@@ -85,6 +114,12 @@ def replay_behaviour(ctx, hist, source, store=True):
 def clause_for(ev, bad):
     """Name of the property clause a step exercises (passing) or violates."""
     op = ev['op']
+    kind = call_kind(ev) if ('nfit' in ev or 'fit' in ev.get('post', {})) else op
+    rejected = {'update_model<shorter': 'refused_vector', 'update_model>longer': 'refused_vector',
+                'set_mode[no-mode]': 'refused_mode'}.get(kind)
+    if rejected and bad in ('ok', 'unknown_is_error', 'values', 'fit_values'):
+        # a refused call raises and writes nothing (neither the model's values nor, hence, the reported ones)
+        return rejected + ('_is_error' if bad == 'unknown_is_error' else '_changes_nothing')
     if bad == 'ok':
         if ev['post']['err']:
             return 'unknown_is_error'
@@ -132,11 +167,16 @@ def random_trace(rng, tid, length):
         elif r < 0.16:
             ev = dict(op='disable_fit', p=p)
         elif r < 0.26:
-            ev = dict(op='set_mode', p=p, m=rng.choice(['linear', 'log', 'log']))
+            # the mode in any spelling: half of the calls write some letters in upper case (LOG, Log, lOg, Linear ..)
+            m = rng.choice(['linear', 'log', 'log'])
+            r2 = rng.random()
+            cs = [] if r2 < 0.5 else list(range(1, len(m) + 1)) if r2 < 0.65 else [1] if r2 < 0.8 else \
+                sorted(rng.sample(range(1, len(m) + 1), rng.randint(1, len(m))))
+            ev = dict(op='set_mode', p=p, m=m, cs=cs)
         elif r < 0.36:
-            ev = dict(op='set_boundary', p=p, x=[rng.randint(-9, 9), rng.randint(-9, 9)])
+            ev = dict(op='set_boundary', p=p, x=[rng.randint(-9, 9), rng.randint(-9, 9)], c=rng.choice(['tuple', 'list']))
         elif r < 0.42:
-            ev = dict(op='set_factor_boundary', p=p, x=[rng.randint(-3, 3), rng.randint(-3, 3)])
+            ev = dict(op='set_factor_boundary', p=p, x=[rng.randint(-3, 3), rng.randint(-3, 3)], c=rng.choice(['tuple', 'list']))
         elif r < 0.52:
             ev = dict(op='set_prior', p=p, pr=random_prior(rng))
         elif r < 0.57:
@@ -146,7 +186,13 @@ def random_trace(rng, tid, length):
         elif r < 0.80:
             ev = dict(op='compile_params')
         elif r < 0.88:
-            ev = dict(op='update_model', x=[rng.randint(-6, 3) for _ in range(nfit)])
+            # one vector in three has the wrong length (shorter but not empty, or longer): it must be refused and
+            # write nothing; the calls that follow see the object as it was
+            n = nfit
+            if rng.random() < 0.34:
+                n = rng.choice([k for k in range(1, nfit + 3) if k != nfit])
+            ev = dict(op='update_model', x=[rng.randint(-6, 3) for _ in range(n)], nfit=nfit,
+                      c=rng.choice(['list', 'tuple', 'array']))
         elif r < 0.93:
             ev = dict(op='write_back')
         else:
@@ -155,7 +201,9 @@ def random_trace(rng, tid, length):
             bad = rng.choice(['nope', 'H2O']) if op.endswith('derived') else rng.choice(['nope', 'mu', 'log_H2O'])
             ev = dict(op=op, p=bad)
             if op == 'set_mode':
-                ev['m'] = 'log'
+                ev['m'], ev['cs'] = 'log', []
+                if rng.random() < 0.5:      # a known parameter, a string that is neither mode
+                    ev['p'], ev['m'] = p, rng.choice(['logarithmic', 'lin', '', 'log10', 'LN', 'linear '])
             if op in ('set_boundary', 'set_factor_boundary'):
                 ev['x'] = [0, 1]
             if op == 'set_prior':
@@ -191,7 +239,7 @@ def run_traces(ctx, ntraces, length):
             evs = per_tid[tid]
             hist = [e for e in evs if e['step'] >= 0 and e['step'] <= b['step']]
             cls = history_class(hist, len(hist) - 1) + ':' + b['why']
-            ctx.verdict(clause_for(dict(op=b['op'], post=dict(err=False)), b['why']), False, cls=cls,
+            ctx.verdict(clause_for(hist[-1], b['why']), False, cls=cls,
                         detail='TLC rejected call %d (%s) of recorded trace %d: %s; logged projection %s'
                                % (b['step'], b['op'], tid, b['why'], str(hist[-1]['post'])[:400]),
                         vector=dict(kind='trace', events=[{k: v for k, v in e.items() if k != 'post'} for e in hist]))
@@ -238,7 +286,7 @@ def replay_trace_events(ctx, events):
     hist = out[1:]
     if bad:
         b = bad[0]
-        ctx.verdict(clause_for(dict(op=b['op'], post=dict(err=False)), b['why']), False,
+        ctx.verdict(clause_for(hist[b['step']], b['why']), False,
                     cls=history_class(hist, b['step']) + ':' + b['why'], detail='TLC rejected call %d: %s' % (b['step'], b['why']),
                     vector=dict(kind='trace', events=events))
     else:
@@ -256,7 +304,12 @@ def run(ctx):
                    ('3 model + 1 observation parameters, 3 bound pairs, 2 factor pairs, 4 priors, 2 update exponents, '
                     'histories of <= 5 calls'),
         behaviours='all histories of 3 calls over a reduced alphabet + 1200 preset histories (all 16 fitted subsets) + %d simulated behaviours of 14 calls over the full alphabet' % (300 if q else 3000),
-        traces='%d recorded call sequences of %d calls' % ((150, 25) if q else (1500, 30)))
+        traces='%d recorded call sequences of %d calls' % ((150, 25) if q else (1500, 30)),
+        rejected_calls='unknown names; update_model with a vector of every wrong non-zero length up to one more than the '
+                       'fitted set (exhaustive: all values of K; presets: one shorter / one longer for every fitted subset; '
+                       'traces: up to two longer, as list / tuple / ndarray); set_mode with a string that is neither mode',
+        mode_spellings='linear, log, LOG' + ('' if q else ', Linear, Log, LINEAR, lOg') +
+                       ' (exhaustive); all seven in the simulation; random upper/lower case in the recorded traces')
     ctx.assumptions = [
         'all linear quantities are powers of ten (exponents in the spec); float log10/10** are exact to 1e-12 on them',
         'prior parameters are read through the public params() text and boundaries(); order of a boundary pair is not compared',
@@ -266,8 +319,11 @@ def run(ctx):
     ctx.check_spec('coverage', 'MC_Optimizer', 'MC_Optimizer_cov.cfg', need_actions=NEED)      # vacuity: every action taken
     ctx.check_spec('exhaustive', 'MC_Optimizer', 'MC_Optimizer_%s.cfg' % ctx.tier)
     ctx.exhaustive = True
+    # e: set_mode stores the spelling it was given (compile reads "LOG" as not "log"); f: update_model notices the
+    # wrong length only when the shorter of vector / fitted set runs out, after the leading setters were called
     for cfg, inv in (('a', 'HistoryIndependent'), ('a2', 'DefaultsFollowSettings'), ('b', 'SpacesAgree'),
-                     ('b2', 'RoundTrip'), ('c', 'KnownIsAccepted')):
+                     ('b2', 'RoundTrip'), ('c', 'KnownIsAccepted'), ('e', 'HistoryIndependent'),
+                     ('f', 'ErrorsChangeNothing')):
         ctx.expect_refuted('as-built-%s' % cfg, 'MC_Optimizer', 'MC_Optimizer_asbuilt_%s.cfg' % cfg, inv)
     # priors of the observation's parameters reaching the table only when the model pass left something in it
     ctx.expect_refuted('obs-priors-lost', 'MC_Optimizer', 'MC_Optimizer_asbuilt_d.cfg', 'ViewsReadable')
@@ -296,10 +352,20 @@ def run(ctx):
         replay_behaviour(ctx, h, 'preset')
         key = (fitted_kind(h[0]['on']), any(x['op'] == 'set_prior' for x in h), h[-1]['op'])
         kinds[key] = kinds.get(key, 0) + 1
+        key = (fitted_kind(h[0]['on']), call_kind(h[-1]), call_kind(h[1]))
+        kinds[key] = kinds.get(key, 0) + 1
     for fk in ('none', 'observation-only', 'model-only', 'model+observation'):
         for last in ('update_model', 'write_back', 'compile_params'):
             if not kinds.get((fk, False, last)) or not kinds.get((fk, True, last)):
                 raise Machinery('preset histories do not cover fitted=%s x set_prior yes/no x %s' % (fk, last))
+        # a refused vector for every kind of fitted set (longer; shorter where a shorter non-empty one exists), also
+        # right after a mode written in upper case
+        for last in ('update_model>longer', 'update_model<shorter'):
+            if last.endswith('shorter') and fk in ('none', 'observation-only'):
+                continue
+            for second in ('compile_params', 'set_mode[mixed-case]'):
+                if not kinds.get((fk, last, second)):
+                    raise Machinery('preset histories do not cover fitted=%s x %s x %s' % (fk, second, last))
     nb += len(pres)
     ctx.note('binding C: %d preset histories (fitted subset x setter/set_prior/compile x compile x update/write-back/compile)' % len(pres))
     # ---- binding C: simulation
@@ -313,16 +379,25 @@ def run(ctx):
         raise Machinery('only %d simulated behaviours printed' % len(sims))
     ops = set()
     ncompile2 = 0
+    nrefused = {}
     for b in sims:
         replay_behaviour(ctx, b['h'], 'simulate')
         ops |= {h['op'] for h in b['h']}
         ncompile2 += sum(1 for h in b['h'] if h['op'] == 'compile_params') >= 2
+        kinds = [call_kind(h) for h in b['h']]
+        for kd in ('update_model<shorter', 'update_model>longer', 'set_mode[no-mode]', 'set_mode[mixed-case]'):
+            # .. followed by an accepted update_model / write-back / compile on the same object
+            if kd in kinds and any(h['op'] in FULL and not h['post']['err'] for h in b['h'][kinds.index(kd) + 1:]):
+                nrefused[kd] = nrefused.get(kd, 0) + 1
     if len(ops) < 12 or ncompile2 < nsim // 4:
         raise Machinery('simulation does not cover the calls: %r, %d behaviours with two compiles' % (sorted(ops), ncompile2))
+    if len(nrefused) < 4 or min(nrefused.values()) < max(3, nsim // 60):
+        raise Machinery('simulation does not cover refused vectors / modes / upper-case modes followed by an accepted '
+                        'compile, update or write-back: %r' % nrefused)
     ctx.traces += nb + len(sims)
     ctx.add_sample(dict(behaviour=[{k: v for k, v in h.items() if k != 'post'} for h in sims[0]['h']]))
-    ctx.note('binding C: %d exported histories (3 calls), %d simulated behaviours (14 calls), %d with >= 2 compiles'
-             % (nb, len(sims), ncompile2))
+    ctx.note('binding C: %d exported histories (3 calls), %d simulated behaviours (14 calls), %d with >= 2 compiles; '
+             'followed by an accepted compile/update/write-back: %r' % (nb, len(sims), ncompile2, nrefused))
     # ---- binding B
     if q:
         run_traces(ctx, 150, 25)
